@@ -12,6 +12,9 @@ kernels' comparisons are the model's comparisons on squared values):
   oracle = max-min over all pairs in integer arithmetic.
 * hop graph: both BFS kernels through `calculate_euclidean_hop_graph` on integer-coordinate tet/hex/mixed bricks vs
   `hopNodal` / `hopElemental`; oracle = the docstring's chain definition evaluated on the node / element graph.
+* stream absolute-scale: the same integer scenes handed to femio scaled exactly by 2^e, e = -20 .. 10, radius / bound scaled
+  along; hop graph: membership of the documented ball d <= r + 1e-8 decided from the integer squared distances in exact
+  rationals (model and oracle at the scaled threshold); k-nearest / Hausdorff: results divided by 2^e against exhaustive search.
 """
 import contextlib
 import io
@@ -46,14 +49,26 @@ RULE = ('scenes = (style, targets, queries) with integer coordinates; styles: ra
         'Stream same-object: each search (k-nearest with two objects and as self-search, Hausdorff symmetric / directed, hop '
         'graph nodal / elemental) is computed on one geometry, the node positions of the SAME objects are replaced through '
         '`nodes.data = …` by an integer-affine image (connectivity unchanged, no cache cleared) and the search is repeated '
-        'with the same arguments; expected = exhaustive search on the current positions')
+        'with the same arguments; expected = exhaustive search on the current positions. '
+        'Stream absolute-scale: per hop mesh one exponent e from -20..-14 (cells below 1e-4, where the length tolerance 1e-8 is not '
+        'small against r^2) and one from -13..10 (every fourth mesh also one of -20, -14, 10, -17), x nodal / elemental, radius '
+        'sqrt(r2) * 2^e with r2 in {0, smallest realised, a small realised, a random realised squared distance, smallest + 1}: femio '
+        'gets coordinates = integer mesh * 2^e (exact in binary64); expected = the definition with D2 <= (fl(sqrt(r2)) + 1e-8 / 2^e)^2 '
+        'on the integer squared distances (exact rationals; tie D with the model at the same threshold); plus k-nearest (public API, '
+        'bound scaled along) and Hausdorff (symmetric / directed alternating) on integer scenes * 2^e, results / 2^e judged by the '
+        'exhaustive-search oracle')
 ASSUMPTIONS = [
     'distances are compared through their squares: integer coordinates make every squared distance an exact binary64 '
     'integer and sqrt is monotone; the float box bounds of the real octree (w0 = 0.51*extent is inexact) can differ from '
     'the model\'s exact boxes, which may change which boxes are visited but not the result (theorem: the result does '
     'not depend on the tree)',
     'the radius ball of the hop graph is the closed ball with the code\'s tolerance: d^2 <= (r + 1e-8)^2 (the docstring '
-    'writes dist < r)',
+    'writes dist < r); 1e-8 is an ABSOLUTE length: at scale s = 2^e the ball in the integer units of the scene is '
+    'D2 <= (fl(sqrt(r2)) + 1e-8 / s)^2, computed exactly; a scene with a realised squared distance within a relative 1e-12 of '
+    'that threshold is skipped and counted (rounding of (r + 1e-8)^2 inside the kernel may decide it either way)',
+    'stream absolute-scale: scaling by a power of two in 2^-20 .. 2^10 commutes with every binary64 operation of the k-nearest / '
+    'Hausdorff kernels on these scenes (|coordinates| <= 10^6 in integer units: no overflow, no subnormals), so the scaled answer is '
+    'judged by the same exhaustive-search oracle after dividing by 2^e; near-plane scenes (extent ~1e8) stay at unit scale',
     'node->element and element->element searches are randomised (np.random sampling) and outside the property',
 ]
 TRUSTED = ['C16: the harness computes the root box (centre, 0.51*extent in binary64) exactly as the wrapper does and '
@@ -534,6 +549,15 @@ def set_pos(fd, P):
     fd.nodes.data = np.asarray([[float(v) for v in p] for p in P], np.float64).reshape(-1, 3)
 
 
+def scaled_nodes(m, e):
+    """the mesh under the uniform scaling by 2^e (exact in binary64: integer coordinates times a power of two)"""
+    if not e:
+        return m
+    out = dict(m)
+    out['nodes'] = [(i, tuple(F(v) * F(2) ** e for v in p)) for i, p in m['nodes']]
+    return out
+
+
 def hop_real(m, r, mode, m0=None):
     if m0 is None:
         fd = MG.to_femio(m)
@@ -548,32 +572,52 @@ def hop_real(m, r, mode, m0=None):
     return {(int(a), int(b)) for a, b in zip(rr, cc)}, fd
 
 
-def hop_indexed(m, fd):
-    """positions by storage index; element -> node indices read off femio's own incidence matrix (columns = the
-    element numbering of the result; that matrix is the subject of C13, not of this property)"""
-    pos = [[int(v) for v in p] for p in fd.nodes.data]
+def hop_indexed(m, fd, e=0):
+    """positions by storage index (in units of 2^e: integers); element -> node indices read off femio's own incidence matrix
+    (columns = the element numbering of the result; that matrix is the subject of C13, not of this property)"""
+    pos = [[int(math.ldexp(float(v), -e)) for v in p] for p in fd.nodes.data]
+    if e and not np.array_equal(np.ldexp(np.asarray(pos, np.float64), e), np.asarray(fd.nodes.data, np.float64)):
+        raise RuntimeError('harness: scaled node positions are not integer multiples of 2^e')
     inc = quiet(fd.calculate_incidence_matrix).tocsc()          # (n_node, n_elem): the structure the kernels walk
     els = [sorted(int(v) for v in inc.indices[inc.indptr[e]:inc.indptr[e + 1]]) for e in range(inc.shape[1])]
     return pos, els
 
 
-def hop_case(ctx, m, r2, mode, m0=None):
+def hop_case(ctx, m, r2, mode, m0=None, e=0):
     """m0 given = stream same-object: hop graph(r, mode) on the positions of m0, `nodes.data = positions of m` on the same
-    object, hop graph(r, mode) again; expected = the definition on the current positions (those of m)"""
-    r = math.sqrt(r2)
-    real, fd = hop_real(m, r, mode, m0)
-    pos, els = hop_indexed(m, fd)
-    thr = (r + 1e-8) * (r + 1e-8)
-    thr2 = F(thr)
+    object, hop graph(r, mode) again; expected = the definition on the current positions (those of m).
+    e != 0 = stream absolute-scale: the integer-coordinate mesh m and the radius are both scaled EXACTLY by s = 2^e (the
+    coordinates handed to femio are m * s, the radius is fl(sqrt(r2)) * s); the documented ball is d <= r + 1e-8 with the
+    ABSOLUTE length tolerance 1e-8, i.e. in the integer units of m: D2 <= (fl(sqrt(r2)) + 1e-8 / s)^2, decided in exact
+    rational arithmetic (a scene in which a realised squared distance lies within a relative 1e-12 of that threshold is
+    skipped and counted: rounding inside the kernel could decide it either way)."""
+    rf = math.sqrt(r2)
+    r = math.ldexp(rf, e)
+    real, fd = hop_real(scaled_nodes(m, e), r, mode, m0)
+    pos, els = hop_indexed(m, fd, e)
+    if e:
+        thr2 = (F(rf) + F(1e-8) / F(2) ** e) ** 2
+        thr = float(thr2)
+        if any(abs(D - thr2) <= thr2 / 10 ** 12 for D in {d2(a, b) for a in pos for b in pos}):
+            ctx.count('hop:absolute-scale:skipped (a realised distance within 1e-12 of r + 1e-8)')
+            return
+    else:
+        thr = (r + 1e-8) * (r + 1e-8)
+        thr2 = F(thr)
     case = {'kind': 'hop', 'mesh': MG.to_json(m), 'r2': r2, 'mode': mode}
     so, after = '', ''
+    if e:
+        case['scale_exp'] = e
+        case['note'] = (f'coordinates handed to femio = mesh * 2^{e}, radius = sqrt(r2) * 2^{e} = {r!r}; ball: distance <= radius + 1e-8, '
+                        f'in mesh units: squared distance <= {thr!r}')
+        so, after = ':absolute-scale', f'at absolute scale 2^{e} (cell size ~{math.ldexp(2.0, e):.3g}, radius {r:.6g}): '
     if m0 is not None:
         case['mesh0'] = MG.to_json(m0)
         case['history'] = 'hop graph(r, mode) on mesh0; nodes.data = positions of mesh; hop graph(r, mode) on the same object'
         so, after = ':same-object', 'after `nodes.data = new positions` on the same object: '
         if pos != [[int(v) for v in p] for _, p in m['nodes']]:
             raise RuntimeError('harness: the node positions were not replaced')
-    ithr = math.floor(thr)
+    ithr = math.floor(thr2)
     if mode == 'nodal':
         want = hop_oracle_nodal(pos, els, ithr)
         if real != want:
@@ -596,10 +640,14 @@ def hop_case(ctx, m, r2, mode, m0=None):
         mod = {(t.nat(), t.nat()) for _ in range(n)}
         if mod != real:
             ctx.disagree('hop ' + mode, case, sorted(real)[:40], sorted(mod)[:40])
-    ctx.case(('hop', MG.enc_mesh(m), r2, mode) + (('after', MG.enc_mesh(m0)) if m0 is not None else ()),
-             sample={'kind': 'hop' + so, 'mode': mode, 'mesh': MG.describe(m), 'r2': r2, 'pairs': len(real)},
+    ctx.case(('hop', MG.enc_mesh(m), r2, mode, e) + (('after', MG.enc_mesh(m0)) if m0 is not None else ()),
+             sample={'kind': 'hop' + so, 'mode': mode, 'mesh': MG.describe(m), 'r2': r2, 'pairs': len(real), **({'scale_exp': e} if e else {})},
              nontrivial=0 < len(real) < (len(pos) if mode == 'nodal' else len(els)) ** 2)
     ctx.count(f'hop{so}:{mode}:{m["kind"]}')
+    if e:
+        ctx.count(f'hop:absolute-scale:2^{e}')
+        if any(r2 < d2(a, b) <= r2 + 1e-8 / 4.0 ** e for a in pos for b in pos):
+            ctx.count('hop:absolute-scale:a node lies in (r, sqrt(r^2 + 1e-8)]')
     if any(d2(pos[a], pos[b]) == r2 for a in range(len(pos)) for b in range(a)):
         ctx.count('hop:radius-on-a-realised-distance')
 
@@ -711,6 +759,84 @@ def history_stream(ctx, n_pts, n_hop):
             hop_case(ctx, m, real[min(len(real) - 1, rnd.randint(0, 6))], mode, m0)
 
 
+# ---------------------------------------------------------------- stream absolute-scale
+# The scenes above live at unit scale (integer coordinates, radii on realised distances of a few units).  The property
+# quantifies over every point set, every distance bound and radius: the SAME integer scenes are therefore also handed to femio
+# scaled exactly by a power of two 2^e, e in -20 .. 10 (cells of a micrometre .. a kilometre in a model expressed in metres), with
+# the radius / bound scaled along.  Multiplying by a power of two commutes with every binary64 operation of the kernels
+# (no underflow / overflow in this range), so the k-nearest and Hausdorff answers at scale 2^e must be the unit-scale answers
+# scaled; the hop graph has ONE absolute constant, the documented length tolerance 1e-8 of its ball (d <= r + 1e-8), so the
+# expected membership at scale s is decided from the integer squared distances in exact rational arithmetic (hop_case).
+
+SCALE_EXPS_SMALL = list(range(-20, -13))                    # cells below ~1e-4: 1e-8 is not small against r^2 any more
+SCALE_EXPS_OTHER = [e for e in range(-13, 11) if e != 0]
+
+
+def scaled_knn_eval(case):
+    """k-nearest search through the public API on targets * 2^e, queries * 2^e with the bound sqrt(bound2) * 2^e; the returned
+    vectors / distances divided by 2^e must satisfy the property on the integer scene.  -> [(signature, what, observed)]"""
+    T, Q, k, m, e = case['targets'], case['queries'], case['k'], case['bound2'], case['scale_exp']
+    ft = mk_points(np.ldexp(np.asarray(T, np.float64), e))
+    fq = mk_points(np.ldexp(np.asarray(Q, np.float64), e))
+    bound = np.inf if m is None else math.ldexp(math.sqrt(m), e)
+    idx, vec, dist = quiet(fq.nearest_neighbor_search_from_nodes_to_nodes, k, distance_upper_bound=bound, target_fem_data=ft)
+    vec, dist = np.ldexp(vec, -e), np.ldexp(dist, -e)
+    for qi, q in enumerate(Q):
+        r = check_row(T, q, k, m, idx[qi], vec[qi], dist[qi])
+        if r is not None:
+            return [(r[0] + ':absolute-scale', f'at absolute scale 2^{e} (coordinates, bound and results in units of 2^{e}): query {q} '
+                     f'(k={k}, bound^2={m}): {r[1]}', {'query_index': qi, 'indices': idx[qi].tolist(), 'dists': [float(x) for x in dist[qi]]})]
+    return []
+
+
+def scaled_haus_eval(case):
+    A, B, e = case['A'], case['B'], case['scale_exp']
+    fa, fb = mk_points(np.ldexp(np.asarray(A, np.float64), e)), mk_points(np.ldexp(np.asarray(B, np.float64), e))
+    out = []
+    want_ab, want_ba = brute_hd2(A, B), brute_hd2(B, A)
+    for name, directed, want in (('symmetric', False, max(want_ab, want_ba)), ('directed A->B', True, want_ab))[case.get('which', 0)::2]:
+        got = math.ldexp(float(quiet(fa.calculate_hausdorff_distance_nodes, fb, directed=directed)), -e)
+        if not close(got, math.sqrt(want)):
+            out.append(('hausdorff:' + name.split()[0] + ':absolute-scale', f'at absolute scale 2^{e}: {name}: returned {got!r} (in units '
+                        f'of 2^{e}), max-min over all pairs = sqrt({want})', got))
+    return out
+
+
+def absolute_scale_stream(ctx, n_hop, n_pts):
+    rnd = ctx.rng
+    for i in range(n_hop):
+        m = gen_hop_mesh(rnd)
+        P = [p for _, p in m['nodes']]
+        real = sorted({d2(a, b) for a in P for b in P if a != b})
+        exps = [rnd.choice(SCALE_EXPS_SMALL), rnd.choice(SCALE_EXPS_OTHER)]
+        if i % 4 == 0:
+            exps.append([-20, -14, 10, -17][(i // 4) % 4])
+        for e in exps:
+            for mode in ('nodal', 'elemental'):
+                r2 = rnd.choice([0, real[0], real[min(len(real) - 1, rnd.randint(0, 6))], rnd.choice(real), real[0] + 1])
+                hop_case(ctx, m, r2, mode, e=e)
+    for i in range(n_pts):
+        e = rnd.choice(SCALE_EXPS_SMALL + SCALE_EXPS_OTHER)
+        scene = gen_scene(rnd, rnd.randrange(len(STYLES) - 1))       # (near-plane scenes have extents ~1e8: left at unit scale)
+        T, Q = scene['targets'], scene['queries']
+        k, m = sweep(rnd, T, Q, 3)[1 + i % 2]
+        case = {'kind': 'knn-scaled', 'targets': T, 'queries': Q, 'k': k, 'bound2': m, 'scale_exp': e, 'style': scene['style']}
+        for sig, what, obs in scaled_knn_eval(case):
+            ctx.fail(sig, what, case, obs)
+        ctx.case(('knn-scaled', repr(case)), sample={'kind': 'knn:absolute-scale', 'style': scene['style'], 'k': k, 'bound2': m,
+                                                     'scale_exp': e, 'n_targets': len(T)}, nontrivial=True)
+        ctx.count('absolute-scale:knn')
+        A, B, label = gen_haus(rnd, rnd.randrange(len(HSTYLES)))
+        if max(abs(v) for p in A + B for v in p) > 10 ** 6:
+            continue
+        case = {'kind': 'hausdorff-scaled', 'A': A, 'B': B, 'label': label, 'scale_exp': e, 'which': i % 2}    # symmetric / directed
+        for sig, what, obs in scaled_haus_eval(case):
+            ctx.fail(sig, what, case, obs)
+        ctx.case(('hausdorff-scaled', repr(case)), sample={'kind': 'hausdorff:absolute-scale', 'label': label, 'scale_exp': e},
+                 nontrivial=brute_hd2(A, B) > 0)
+        ctx.count('absolute-scale:hausdorff')
+
+
 # ---------------------------------------------------------------- entry points
 
 def run(ctx):
@@ -740,6 +866,8 @@ def run(ctx):
     # stream same-object: every search asked again with the same arguments after the node positions of the same object(s)
     # were replaced through the public setter
     history_stream(ctx, ctx.n(3, 24), ctx.n(8, 40))
+    # stream absolute-scale: the same integer scenes scaled exactly by 2^e, e = -20 .. 10, radius / bound scaled along
+    absolute_scale_stream(ctx, ctx.n(14, 90), ctx.n(4, 30))
 
 
 class _Collect:
@@ -775,9 +903,12 @@ def replay(ctx, obj):
         haus_scene(ctx, case['A'], case['B'], case.get('label', 'replay'))
     elif kind == 'hop':
         hop_case(ctx, MG.from_json(case['mesh']), case['r2'], case['mode'],
-                 MG.from_json(case['mesh0']) if 'mesh0' in case else None)
+                 MG.from_json(case['mesh0']) if 'mesh0' in case else None, e=case.get('scale_exp', 0))
     elif kind in ('knn-history', 'hausdorff-history'):
         for sig, what, obs in history_eval(case):
+            ctx.fail(sig, what, case, obs)
+    elif kind in ('knn-scaled', 'hausdorff-scaled'):
+        for sig, what, obs in (scaled_knn_eval if kind == 'knn-scaled' else scaled_haus_eval)(case):
             ctx.fail(sig, what, case, obs)
     else:
         return {'fails': False, 'error': f'unknown case kind {kind!r}'}
